@@ -27,12 +27,12 @@ def make_app(proj: str, cache_dir: str):
 	return mk(proj, cache_dir)
 
 
-def one(proj: str, q: dict) -> list:
+def one(proj: str, q: dict, tpl: str | None = None) -> list:
 	from harness.c04 import RealSession
 	cache = tempfile.mkdtemp(prefix='c04-fresh-')
 	try:
 		try:
-			ses = RealSession(proj, cache)
+			ses = RealSession(proj, cache, tpl)
 		except Exception as e:  # noqa: BLE001
 			return ['app-error', canon(e)]
 		if 'module' in q:
@@ -65,7 +65,7 @@ def main() -> int:
 				if pid == 0:
 					code = 0
 					try:
-						res = one(proj, q)
+						res = one(proj, q, req.get('tpl'))
 						with open(path, 'w', encoding='utf-8') as f:
 							json.dump(res, f)
 					except BaseException as e:  # noqa: BLE001
